@@ -504,7 +504,7 @@ func (er *encRun) roundTrip(stream string, t *target, m protoreflect.Message, fl
 }
 
 // documents longer than this are checked by the direct oracle only
-const maxModelOut = 2600
+const maxModelOut = 20000
 
 func runC01(cfg *vh.Config) error {
 	res := vh.NewResult("C01", cfg.Seed)
